@@ -14,7 +14,7 @@ import (
 )
 
 // shapes of the jq result (see C08): 0 no filter, 1 object field, 2 constructed
-// object, 3 string, 4 array
+// object, 3 string, 4 array, 5 an empty object
 func vhC09Filter(shape int) string {
 	switch shape {
 	case 0:
@@ -32,6 +32,8 @@ func vhC09Object(shape int, name, sv string) *unstructured.Unstructured {
 		v = map[string]any{"k": sv}
 	case 4:
 		v = []any{sv}
+	case 5:
+		v = map[string]any{}
 	}
 	return &unstructured.Unstructured{Object: map[string]any{
 		"apiVersion": "v1", "kind": "Pod",
@@ -77,6 +79,9 @@ func vhFilterResultOK(shape int, fr interface{}, sv string) bool {
 	case 3:
 		s, ok := fr.(string)
 		return ok && s == sv
+	case 5:
+		mm, ok := fr.(map[string]any)
+		return ok && mm != nil && len(mm) == 0
 	case 4:
 		l, ok := fr.([]any)
 		if !ok || len(l) != 1 {
@@ -90,7 +95,7 @@ func vhFilterResultOK(shape int, fr interface{}, sv string) bool {
 
 func VH_C09_kube_context() {
 	version := zz.ConcretizeStr(zz.OneOf("version", "v1", "v0"))
-	shape := zz.Len("shape", 0, 4)
+	shape := zz.Len("shape", 0, 5)
 	keepFull := zz.Bool("keep_full_objects")
 	if version == "v0" {
 		// what the v0 loader produces for every v0 binding
